@@ -16,6 +16,7 @@ Work ONLY inside {wt} and write your outputs to {out}/ . Do NOT read or touch /r
 Requirements for the change:
 1. It must look like a plausible maintainer edit (refactor, "simplification", off-by-one, wrong version gate, swapped argument, shared mutable state, wrong boundary constant, wrong struct format, ...) of a few lines in the xdis/ package — not sabotage comments, not test edits, not deleting features.
 2. It must need something SPECIFIC to manifest: a particular unusual input, boundary value, bytecode version, a multi-step sequence of operations, a particular host Python, or two cooperating sites that each look fine alone. Changes that ordinary use would expose at once (every file fails to load, every listing differs) are not wanted. Prefer a defect different in kind from the obvious ones (think about which code paths a tester would probably forget: rarely taken branches, less common bytecode variants and versions, values at the edge of a field's range, behaviour that depends on what was done earlier in the same process or on which Python runs the library).
+2b. To avoid the first idea everybody has: before editing, write down (in notes.md, section "## Candidates") at least six candidate defects of clearly different kinds and in different functions/files, then pick one by running  python3 -c "import random; print(random.randrange(6))"  and implement that one (if it turns out infeasible, take the next).
 3. With the change applied the pinned baseline must still pass: run  /tmp/seedtools/baseline.py {wt}   (it must print "baseline: 39/39 stable tests pass").
 4. Provide a demonstration program {out}/demo.py that takes the path of an xdis source tree as argv[1] (it must insert that path at the front of sys.path so that `import xdis` comes from there; verify with xdis.__file__; do not hard-code {wt} anywhere in it), exits 0 on the unmodified tree and exits 1 (printing what went wrong) on the modified tree. Confirm both: run it against {wt} with your change, then `git diff > /tmp/seeds_out/{sid}/patch.diff; git checkout -- .`, run again, then re-apply the patch.
 
